@@ -18,7 +18,7 @@ UB = ['-fsanitize=undefined', '-fno-sanitize-recover=all']
 QUICK_BUILDS = [
     ('gcc-O0-gnu89', 'gcc', ['-O0', '-std=gnu89'], None),
     ('gcc-O2', 'gcc', ['-O2'], None),
-    ('clang-O2', 'clang', ['-O2'], None),
+    ('clang-O2', 'clang', ['-O2', '-DNDEBUG'], None),   # release configuration: assertions compiled out
     ('gcc-O1-asan-ubsan', 'gcc', ['-O1', '-g', '-fsanitize=address,undefined', '-fsanitize=float-cast-overflow', '-fno-sanitize-recover=all'], 'san'),
     ('clang-O1-ubsan', 'clang', ['-O1', '-g', '-fsanitize=undefined,float-cast-overflow', '-fno-sanitize-recover=all'], 'san'),
 ]
@@ -144,6 +144,61 @@ def nesting_probe(chk, w2c2):
         chk.distinct(('nesting',) + job)
         for key, what in res:
             chk.violation(key, what, {'module.wasm': b})
+
+
+def big_memory_probe(chk, w2c2):
+    """A memory larger than 2 GiB whose upper half is initialised by active data segments and accessed with static offsets and bulk
+    instructions: indices at and above 2^31 must stay unsigned through the generated C (no negative array index, no out-of-object
+    access) in every build. Reference: V8. Skipped (never failed) when the host cannot reserve the memory."""
+    from vlib import diff
+    try:
+        import mmap
+        mmap.mmap(-1, 32770 * 65536).close()
+    except Exception as ex:
+        chk.observe('big_memory_probe', 'skipped: %s' % ex, 'set')
+        return
+    m = Module()
+    m.mems.append((32770, 32770, False))
+    m.exports.append(('mem', 'memory', 0))
+    m.datas.append(dict(mode='active', offset=[('i32.const', wasm.to_signed(0x80000010, 32))], bytes=b'\x11\x22\x33\x44upper-half'))
+    m.datas.append(dict(mode='active', offset=[('i32.const', 0x7ffffffe)], bytes=b'\xa1\xa2\xa3\xa4'))
+    m.datas.append(dict(mode='active', offset=[('i32.const', wasm.to_signed(0x8001ff00, 32))], bytes=bytes(range(64)), flag=2))
+    m.datas.append(dict(mode='passive', bytes=b'passive!'))
+    m.globals.append((I32, False, [('i32.const', wasm.to_signed(0x80000010, 32))]))
+    m.add_func([I32], [I32], [], [('local.get', 0), ('i32.load', 0, 0x80000010)], export='ld_static')
+    m.add_func([I32], [I32], [], [('local.get', 0), ('i32.load', 0, 0)], export='ld')
+    m.add_func([], [I32], [], [('global.get', 0), ('i32.load', 0, 0)], export='ld_global')
+    m.add_func([I32, I32], [], [], [('local.get', 0), ('local.get', 1), ('i32.const', 8), ('memory.copy',)], export='cp8')
+    m.add_func([I32], [], [], [('local.get', 0), ('i32.const', 0), ('i32.const', 8), ('memory.init', 3)], export='init8')
+    m.add_func([I32, I64], [], [], [('local.get', 0), ('local.get', 1), ('i64.store', 0, 0x7ffffff9)], export='st_static')
+    b = m.encode()
+    plan = e2e.Plan(m)
+    lines = ['I 0', 'c 0 %d 0x0' % plan.fk('ld_static'), 'c 0 %d 0x80000010' % plan.fk('ld'), 'c 0 %d' % plan.fk('ld_global'), 'c 0 %d 0x7ffffffe' % plan.fk('ld'),
+             'c 0 %d 0x8001ff3c' % plan.fk('ld'), 'c 0 %d 0x80000100 0x80000010' % plan.fk('cp8'), 'c 0 %d 0x80000100' % plan.fk('ld'),
+             'c 0 %d 0x80000200' % plan.fk('init8'), 'c 0 %d 0x80000204' % plan.fk('ld'), 'c 0 %d 0x7 0x1122334455667788' % plan.fk('st_static'),
+             'c 0 %d 0x80000000' % plan.fk('ld'), 'w 0 0 %d 64' % 0x7ffffff0, 'w 0 0 %d 64' % 0x8001ff00]
+    script = '\n'.join(lines) + '\n'
+    d = env.subdir('c11-bigmem')
+    st, ref, _ = e2e.run_ref(b, plan, script, d)
+    if st != 'ok':
+        chk.observe('big_memory_probe', 'skipped: reference could not run it (%s)' % st, 'set')
+        return
+    files = {'module.wasm': b, 'script.txt': script}
+    for tag, cc, cflags in (('gcc-O0', 'gcc', ['-O0']), ('gcc-O2', 'gcc', ['-O2']), ('clang-O2', 'clang', ['-O2']),
+                            ('clang-O1-ubsan', 'clang', ['-O1', '-g', '-fsanitize=undefined,bounds', '-fno-sanitize-recover=all'])):
+        st2, out, r = e2e.build_and_run(w2c2, b, plan, script, os.path.join(d, tag), cc=cc, cflags=cflags)
+        chk.ev(len(lines))
+        chk.distinct(('bigmem', tag))
+        if st2 != 'ok':
+            if st2 == 'run' and ('alloc' in str(out).lower() or 'out of memory' in str(out).lower()):
+                chk.observe('big_memory_probe', 'skipped: host could not allocate', 'set')
+                return
+            chk.violation('C11:big-memory:%s:%s' % (st2, tag), 'module with data segments and accesses above 2^31 on a 32770-page memory fails at %s (%s): %s' % (st2, tag, str(out)[-700:]), files)
+            continue
+        for step, kind, ra, rb, i in diff.compare(ref, out, {}):
+            chk.violation('C11:big-memory:value:%s' % tag, 'build %s, line %d: reference "%s" vs compiled "%s"' % (tag, i, ra[:160], rb[:160]), files)
+            break
+    chk.observe('big_memory_probe', 'ran', 'set')
 
 
 def main(chk):
@@ -274,6 +329,7 @@ def main(chk):
             chk.sample({'module': tag, 'builds': sorted(outs), 'calls': ncalls})
     compile_sweep(chk, w2c2, quick)
     nesting_probe(chk, w2c2)
+    big_memory_probe(chk, w2c2)
     for k, v in skipped.items():
         chk.observe('skipped_' + k, v, 'set')
     chk.observe('builds', [b_[0] for b_ in builds], 'set')
